@@ -517,3 +517,69 @@ Proof.
   eapply mod_add_inj; [| |exact E]; lia.
 Qed.
 End FreshGen.
+
+(* ---------- instantiation: g = gcd r n ---------- *)
+Lemma gcd_params n r : 0 < n -> 0 < r ->
+  let g := Nat.gcd r n in let m := n / g in let r' := r / g in
+  0 < g /\ 0 < m /\ 0 < r' /\ Nat.gcd m r' = 1 /\ g * m = n /\ g * r' = r.
+Proof.
+  intros Hn Hr. cbv zeta. set (g := Nat.gcd r n).
+  assert (Hg : g <> 0) by (intros E; apply Nat.gcd_eq_0_r in E; lia).
+  destruct (Nat.gcd_divide_r r n) as [kn Hkn]. destruct (Nat.gcd_divide_l r n) as [kr Hkr]. fold g in Hkn, Hkr.
+  assert (Em : n / g = kn) by (rewrite Hkn at 1; apply Nat.div_mul; exact Hg).
+  assert (Er : r / g = kr) by (rewrite Hkr at 1; apply Nat.div_mul; exact Hg).
+  rewrite Em, Er.
+  assert (Hc : Nat.gcd (r / g) (n / g) = 1) by (apply Nat.gcd_div_gcd; [exact Hg|reflexivity]).
+  rewrite Em, Er, Nat.gcd_comm in Hc.
+  repeat split; try lia; try nia; try exact Hc.
+Qed.
+
+(* V2 fresh layout on any duplicate-free ring: every partition's members lie in r different classes whenever
+   ring slot s has class s mod d with d dividing the ring length and r <= d *)
+Theorem fill_v2_fresh_spread_any h p r d (ring : list (list N)) (cls : list N -> nat) :
+  NoDup ring -> ~ In [] ring -> 0 < r -> r <= length ring ->
+  d <> 0 -> Nat.divide d (length ring) -> r <= d ->
+  (forall s, s < length ring -> cls (nth s ring []) = s mod d) ->
+  exists parts, fill_v2 h p r [] ring = Ok parts /\ Forall (fun nl => NoDup (map cls nl)) parts.
+Proof.
+  intros Hnd Hne Hr Hrn Hd Hdiv Hrd Hcls.
+  assert (Hn : 0 < length ring) by lia.
+  destruct (gcd_params (length ring) r Hn Hr) as [Hg [Hm [Hr' [Hc [Egm Egr]]]]].
+  set (g := Nat.gcd r (length ring)) in *. set (m := length ring / g) in *. set (r' := r / g) in *.
+  assert (Hle : g * r' <= g * m) by lia.
+  pose proof (fill_v2_fresh_general g m r' Hg Hm Hr' Hc Hle ring Hnd Hne (eq_sym Egm) h p) as E.
+  rewrite Egr in E. eexists. split; [exact E|].
+  unfold fresh_parts. apply Forall_map. apply Forall_forall. intros t _.
+  apply (fresh_part_spread g m r' Hg Hm Hr' Hc Hle ring (eq_sym Egm) h t d cls Hd); rewrite ?Egm, ?Egr; assumption.
+Qed.
+
+(* through the entry point: V2 fresh layouts on even topologies over at least r data centres, ALL sizes *)
+Theorem rebalance_v2_fresh_dc_spread_unbounded ver ns p r nodes k l :
+  is_v2 ver = true -> NoDup (map fst nodes) -> ~ In [] (map fst nodes) -> nodes <> [] ->
+  even_topology nodes k -> N.to_nat r <= length (dcs_of nodes) ->
+  rebalance ver ns p r [] nodes = Ok l ->
+  Forall (fun nl => NoDup (map (node_dc nodes) nl)) l.
+Proof.
+  intros Hv Hnd Hne Hnn He Hrd E.
+  destruct (even_k_pos nodes k Hnn He) as [Hk Hd0].
+  destruct (even_ring_class nodes k Hnd He Hk) as [HL Hcls].
+  destruct (ring_facts nodes Hnd) as [P [Hndr HLn]].
+  set (ring := ring_of_lists (node_name_list nodes)) in *.
+  set (d := length (dcs_of nodes)) in *.
+  assert (Hrle : (r <= N.of_nat (length nodes))%N).
+  { rewrite <- HLn, HL. assert (d <= k * d) by nia. lia. }
+  destruct (Nat.eq_dec (N.to_nat r) 0) as [Hr0|Hr0].
+  { destruct (rebalance_v2_valid ver ns p r [] nodes Hv Hnd Hne Hnn Hrle) as [l' [E' [VL VF]]].
+    { split; [simpl; lia|constructor]. }
+    rewrite E in E'. inversion E'; subst l'. eapply Forall_impl; [|exact VF].
+    intros nl [A _]. apply NoDup_short. lia. }
+  assert (Hner : ~ In [] ring).
+  { intros H0. apply Hne. eapply Permutation_in; [symmetry; exact P|exact H0]. }
+  rewrite rebalance_unfold in E by assumption. cbv zeta in E. rewrite Hv in E. fold ring in E.
+  destruct (fill_v2_fresh_spread_any (murmur3_32 ns) (N.to_nat p) (N.to_nat r) d ring
+              (fun x => pos_in (node_dc nodes x) (dcs_of nodes))) as [parts [E2 HF]]; try assumption; try lia.
+  - exists k. exact HL.
+  - rewrite E2 in E. inversion E; subst l.
+    eapply Forall_impl; [|exact HF]. intros nl Hn. cbv beta in Hn.
+    apply (NoDup_map_inv (fun y => pos_in y (dcs_of nodes))). rewrite map_map. exact Hn.
+Qed.
